@@ -162,6 +162,52 @@ impl Iterator for VecIter {
 /// What the driver needs from a generated lexer.
 pub trait Lx: Iterator<Item = Item> + Clone {
     fn user_state(&mut self) -> St;
+    /// The public registers `__state`, `__initial_state`, `__done`.
+    fn regs(&self) -> (usize, usize, bool);
+}
+
+thread_local! {
+    static FINE: Cell<bool> = const { Cell::new(false) };
+}
+
+/// Marker in the fine-grained (per library operation) event stream.
+/// kind: 1 action starts (arg = rule), 2 token, 3 InvalidToken, 4 custom error, 5 None.
+pub fn fine_mark(kind: i64, arg: i64, state: usize, initial_state: usize, done: bool) {
+    if FINE.with(|c| c.get()) {
+        lexgen_util::verif::mark(kind, arg, state, initial_state, done);
+    }
+}
+
+fn fine_loc(l: Loc) -> Value {
+    json!([l.line, l.col, l.byte_idx])
+}
+
+/// The fine-grained events recorded since `begin_run`, as JSON.
+pub fn take_fine() -> Vec<Value> {
+    use lexgen_util::verif::Op;
+    lexgen_util::verif::take()
+        .into_iter()
+        .map(|e| {
+            let op = match e.op {
+                Op::Next => "N",
+                Op::Peek => "P",
+                Op::BacktrackOk => "BO",
+                Op::BacktrackErr => "BE",
+                Op::SetAccepting => "SA",
+                Op::ResetAccepting => "RA",
+                Op::ResetMatch => "RM",
+                Op::Mark => "M",
+            };
+            json!({
+                "op": op,
+                "c": e.c.map(|c| c as i64).unwrap_or(-1),
+                "st": e.state, "ini": e.initial_state, "dn": e.done,
+                "ms": fine_loc(e.match_start), "me": fine_loc(e.match_end),
+                "lm": match e.last_match { None => json!([]), Some((s, t)) => json!([fine_loc(s), fine_loc(t)]) },
+                "mk": [e.mark.0, e.mark.1],
+            })
+        })
+        .collect()
 }
 
 pub struct Req {
@@ -213,6 +259,16 @@ pub fn drive<L: Lx>(lexer: L, req: &Req) {
         if item.is_none() {
             lexers[pick].3 += 1;
         }
+        {
+            let (st, ini, dn) = lexers[pick].0.regs();
+            let (kind, arg) = match &item {
+                None => (5, 0),
+                Some(Ok((_, t, _))) => (2, t.r),
+                Some(Err(LexerError { kind: LexerErrorKind::InvalidToken, .. })) => (3, 0),
+                Some(Err(LexerError { kind: LexerErrorKind::Custom(e), .. })) => (4, e.r),
+            };
+            fine_mark(kind, arg, st, ini, dn);
+        }
         push_item(&item);
         lexers[pick].1 += 1;
     }
@@ -223,7 +279,9 @@ pub fn drive<L: Lx>(lexer: L, req: &Req) {
     }
 }
 
-pub fn begin_run(script: &[usize], use_text: bool, tag_lx: bool, action_budget: i64) {
+pub fn begin_run(script: &[usize], use_text: bool, tag_lx: bool, action_budget: i64, fine: bool) {
+    FINE.with(|c| c.set(fine));
+    lexgen_util::verif::record(fine);
     ACTION_BUDGET.with(|c| c.set(action_budget));
     LOG.with(|l| l.borrow_mut().clear());
     SCRIPT.with(|s| *s.borrow_mut() = script.to_vec());
@@ -240,6 +298,7 @@ pub fn take_log() -> Vec<Value> {
 #[macro_export]
 macro_rules! act {
     ($lx:ident, $rule:expr, $menu:expr, $sw:ident) => {{
+        $crate::drv::fine_mark(1, $rule, $lx.0.__state, $lx.0.__initial_state, $lx.0.__done);
         let (ms, me) = $lx.match_loc();
         let pk = $lx.peek();
         let tx = if $crate::drv::use_text() { Some($lx.match_().to_string()) } else { None };
@@ -260,6 +319,7 @@ macro_rules! act {
 #[macro_export]
 macro_rules! actf {
     ($lx:ident, $rule:expr, $menu:expr, $sw:ident) => {{
+        $crate::drv::fine_mark(1, $rule, $lx.0.__state, $lx.0.__initial_state, $lx.0.__done);
         let (ms, me) = $lx.match_loc();
         let pk = $lx.peek();
         let tx = if $crate::drv::use_text() { Some($lx.match_().to_string()) } else { None };
@@ -280,6 +340,7 @@ macro_rules! actf {
 #[macro_export]
 macro_rules! act_ns {
     ($lx:ident, $rule:expr, $menu:expr) => {{
+        $crate::drv::fine_mark(1, $rule, $lx.0.__state, $lx.0.__initial_state, $lx.0.__done);
         let (ms, me) = $lx.match_loc();
         let pk = $lx.peek();
         let tx = if $crate::drv::use_text() { Some($lx.match_().to_string()) } else { None };
@@ -297,6 +358,7 @@ macro_rules! act_ns {
 #[macro_export]
 macro_rules! actf_ns {
     ($lx:ident, $rule:expr, $menu:expr) => {{
+        $crate::drv::fine_mark(1, $rule, $lx.0.__state, $lx.0.__initial_state, $lx.0.__done);
         let (ms, me) = $lx.match_loc();
         let pk = $lx.peek();
         let tx = if $crate::drv::use_text() { Some($lx.match_().to_string()) } else { None };
